@@ -238,6 +238,9 @@ def render(scratch, template_path, vacuity=False):
                 endl = src.count("\n", 0, cb)
             tr = ["attributes/derives and doc comment in front of the item dropped"]
             sha = hashlib.sha256(item.encode()).hexdigest()
+            item, nd = re.subn(r"(?m)^\s*#\[default\]\s*\n", "", item)
+            if nd:
+                tr.append("%d `#[default]` variant markers dropped (belong to the dropped derive)" % nd)
             if getattr(p, "pubfields", None) == "yes":
                 item, n = re.subn(r"(?m)^(\s+)(?!pub\b)(\w+\s*:)", r"\1pub \2", item)
                 tr.append("%d private fields made `pub` (Verus treats a type with private fields as opaque in contracts of pub fns)" % n)
